@@ -391,6 +391,7 @@ def run(chk):
     _reap_rule(chk, prog)
     _staletrim_rule(chk, prog)
     _fiberarity_rule(chk, prog)
+    _heldacross_rule(chk, prog)
 
 
 ACQUIRE = ("socket", "accept", "accept4", "open", "dup", "inotify_init1", "inotify_init", "epoll_create1", "timerfd_create",
@@ -1003,3 +1004,123 @@ def _fiberarity_rule(chk, prog):
                               "`%s`: janet_fiber returns NULL when the function does not accept %s argument(s); the result is used "
                               "without a test and no admission check is known for this site" % (c.text()[:50], argc.text()))
     chk.floor(rule, 8, n)
+
+
+VM_ENTRY = ("janet_call", "janet_pcall", "janet_mcall", "janet_continue", "janet_continue_signal")
+RAW_ALLOC = ("janet_malloc", "janet_calloc", "janet_realloc", "malloc", "calloc", "realloc")
+RAW_FREE = ("janet_free", "free")
+
+
+def _heldacross_rule(chk, prog):
+    """A C function that calls back into Janet code (a substitution function, a method) is left by longjmp when that
+    code raises - an ordinary event, `error` in a callback.  Whatever the function then holds in plain malloc memory
+    (a stack JanetBuffer set up with janet_buffer_init, a search table from calloc) is lost on every such call.
+    Memory that must survive a callback is scratch memory (janet_smalloc) or a collected object."""
+    rule = "C20-HELDACROSSCALL"
+    chk.rule(rule, "no C function holds plain malloc memory (a janet_buffer_init'd stack buffer, a calloc'd table) across a call that runs Janet code")
+    cg = CallGraph(prog)
+    # functions that run Janet code, through direct calls only
+    rev = {}
+    for fid, sites in cg.sites.items():
+        for (n, tgt, kind) in sites:
+            if kind != "direct":
+                continue
+            for t in tgt:
+                rev.setdefault(t if isinstance(t, tuple) else t, set()).add(fid)
+    runs = set()
+    work = [fid for fid in cg.funcs if fid[1] in VM_ENTRY]
+    while work:
+        f = work.pop()
+        if f in runs:
+            continue
+        runs.add(f)
+        work.extend(rev.get(f, ()))
+    run_names = set(f[1] for f in runs)
+    # per unit: helpers that leave malloc memory in a struct handed to them (kmp_init, and wrappers of it), and their inverses
+    n = 0
+    for tu in prog.tus.values():
+        acq, rel = {}, {}
+        changed = True
+        funcs = list(tu.funcs.values())
+        while changed:
+            changed = False
+            for g in funcs:
+                if g.name in acq or g.name in rel:
+                    continue
+                pnames = [p["n"] for p in g.params]
+                for x in g.nodes:
+                    # p->field = malloc(...)  /  local = malloc(...); p->field = local
+                    if x.k == "asg" and x.kids[0].k == "mem":
+                        base = strip_casts(x.kids[0].kids[0])
+                        while base.k == "mem":
+                            base = strip_casts(base.kids[0])
+                        while base.k == "un" and base.op == "&":
+                            base = strip_casts(base.kids[0])
+                        if base.k == "ref" and base.name in pnames:
+                            r = strip_casts(x.kids[1])
+                            is_alloc = (r.k == "call" and r.callee in RAW_ALLOC) or \
+                                (r.k == "ref" and any(d.k == "vardecl" and d.name == r.name and d.kids and strip_casts(d.kids[0]).k == "call" and
+                                                      strip_casts(d.kids[0]).callee in RAW_ALLOC for d in g.nodes))
+                            if is_alloc and not g.calls(*RAW_FREE):
+                                acq[g.name] = pnames.index(base.name)
+                                changed = True
+                    if x.k == "call" and x.callee in acq and x.callee != g.name:
+                        a = strip_casts(x.args[acq[x.callee]]) if acq[x.callee] < len(x.args) else None
+                        while a is not None and a.k in ("un", "mem"):
+                            a = strip_casts(a.kids[0])
+                        if a is not None and a.k == "ref" and a.name in pnames and g.name not in acq:
+                            acq[g.name] = pnames.index(a.name)
+                            changed = True
+                    if x.k == "call" and x.callee in RAW_FREE and x.args:
+                        a = strip_casts(x.args[0])
+                        if a.k == "mem":
+                            base = strip_casts(a.kids[0])
+                            if base.k == "ref" and base.name in pnames and g.name not in rel:
+                                rel[g.name] = pnames.index(base.name)
+                                changed = True
+        acq["janet_buffer_init"] = 0
+        rel["janet_buffer_deinit"] = 0
+        for fn in funcs:
+            if fn.name in acq or fn.name in rel:
+                continue
+            calls = [c for c in fn.nodes if c.k == "call" and c.callee in run_names and (fn.tu.name, fn.name) != ("vm.c", c.callee)]
+            if not calls or not any(c.callee in acq for c in fn.nodes if c.k == "call"):
+                continue
+
+            def local_of(a):
+                a = strip_casts(a)
+                if a.k == "un" and a.op == "&":
+                    a = strip_casts(a.kids[0])
+                    while a.k == "mem":
+                        a = strip_casts(a.kids[0])
+                    if a.k == "ref" and any(d.k == "vardecl" and d.name == a.name for d in fn.nodes):
+                        return a.name
+                return None
+
+            def transfer(st, x):
+                if x.k == "call" and x.callee in acq and acq[x.callee] < len(x.args):
+                    v = local_of(x.args[acq[x.callee]])
+                    if v:
+                        return st | {v}
+                if x.k == "call" and x.callee in rel and rel[x.callee] < len(x.args):
+                    v = local_of(x.args[rel[x.callee]])
+                    if v:
+                        return st - {v}
+                return st
+            IN, OUT, T = flow.forward_paths(fn, frozenset(), transfer)
+            chk.analysed(fn)
+            seen = set()
+            for x, S in flow.states_at(fn, IN, T):
+                if x in calls and id(x) not in seen:
+                    seen.add(id(x))
+                    n += 1
+                    chk.instance(rule)
+                    held = sorted(set().union(*S)) if S else []
+                    if not held:
+                        chk.ok(rule, "%s: nothing in plain malloc memory is held at `%s`" % (fn.name, x.text()[:40]))
+                    else:
+                        chk.violation(rule, fn.tu.name, fn.name, "held:%s@%s" % ("+".join(held), x.callee), x.loc,
+                                      "`%s` can run Janet code, and %s holds malloc memory in `%s` at that point: when the called code "
+                                      "raises, the function is left by longjmp and that memory is never freed - once per call" % (
+                                          x.text()[:50], fn.name, ", ".join(held)))
+    chk.floor(rule, 2, n)
